@@ -447,6 +447,16 @@ func (w *World) Prelude() string {
 	b.WriteString("(define-fun oldaddr ((a Int)) Bool (and (not (= a 0)) (<= (fa_root a) AllocBase)))\n")
 	b.WriteString("(declare-fun strlen (Int) Int)\n")
 	b.WriteString("(declare-fun strcat (Int Int) Int)\n")
+	// lengths of the string literals of this function (literal ids are negative, "" is 0)
+	b.WriteString("(assert (= (strlen 0) 0))\n")
+	lits := make([]string, 0, len(w.strLits))
+	for l := range w.strLits {
+		lits = append(lits, l)
+	}
+	sort.Slice(lits, func(i, j int) bool { return w.strLits[lits[i]] < w.strLits[lits[j]] })
+	for _, l := range lits {
+		fmt.Fprintf(&b, "(assert (= (strlen (- %d)) %d))\n", w.strLits[l], len(l))
+	}
 	names := append([]string{}, w.funOrder...)
 	for _, n := range names {
 		b.WriteString(w.funDecls[n] + "\n")
